@@ -167,3 +167,26 @@ Theorem C05_sonic_batch_one_false_rejects :
     s_batch_check vk cs qs ev pfs chal vtape = Ok (false, rest, length (pre ++ r :: post)).
 Proof. exact @sonic_batch_one_false. Qed.
 Print Assumptions C05_sonic_batch_one_false_rejects.
+
+(* IPA batch_check: the one final-key comparison of the batch is, coordinate by coordinate, the randomizer-weighted sum of the
+   final-key residuals of the groups (first randomizer 1, the others from the verifier's RNG): either a group failed its succinct
+   check, or the verdict is exactly "every coordinate of the weighted sum vanishes" *)
+From PC Require Import Schemes.IPA Proofs.IPAFacts Schemes.DefaultBatch Schemes.IPABatch Proofs.IPABatchSum.
+Theorem C05_ipa_batch_is_weighted_sum :
+  forall (FO : FieldOps) (FL : FieldLaws FO) d cs qs ev proofs chal hchal vtape b rest hrest dr,
+    i_batch_check d cs qs ev proofs chal hchal vtape = Ok (b, rest, hrest, dr) ->
+    (exists r h n, ibc_loop d (label_map cs) ev (groups qs) proofs chal hchal vtape f1 [] [] O = Ok (None, r, h, n)) \/
+    exists ws, (length ws <= length (groups qs))%nat /\ map (fun t => fst (fst t)) ws = firstn (length ws) (f1 :: vtape) /\
+               (b = true <-> forall i, iwsum d i ws = f0).
+Proof. exact @ipa_batch_is_weighted_sum. Qed.
+Print Assumptions C05_ipa_batch_is_weighted_sum.
+
+(* ... and one group with a wrong final key under a non-zero randomizer is enough for a non-zero sum, whatever the other
+   randomizers are *)
+Theorem C05_ipa_batch_one_false :
+  forall (FO : FieldOps) (FL : FieldLaws FO) d i pre w chs pf post,
+    (forall t, In t (pre ++ post) -> ikey_resid d i (snd (fst t)) (snd t) = f0) ->
+    w <> f0 -> ikey_resid d i chs pf <> f0 ->
+    iwsum d i (pre ++ (w, chs, pf) :: post) <> f0.
+Proof. exact @iwsum_one_false. Qed.
+Print Assumptions C05_ipa_batch_one_false.
